@@ -6,6 +6,7 @@ From SU Require Import F32.
 From SU.Model Require Import Ribbon.
 From SU.Spec Require Import RibbonSpec.
 From SU.Proofs Require Import RibbonProofs.
+From SU.Proofs Require Import RibbonExtraProofs.
 Open Scope Z_scope.
 
 (** [finger_is_pressing()] after any sample history is true exactly when the current
@@ -56,8 +57,33 @@ Theorem C15_just_released : forall cap fs sp dr pu h,
   snd (rstep (rrun r0 h) RJustReleased) = Some (changed true (rrun r0 before) tail).
 Proof. exact just_released_spec. Qed.
 
+(** edge polls at any position change nothing but their own latch: every other field after a history equals that after its samples alone *)
+Open Scope R_scope.
+Theorem C15_edge_polls_transparent : forall (r0 : ribbon) (h : list rop),
+  let r := rrun r0 h in
+  let r' := polls r0 (samples_of h) in
+  rb_pressing r = rb_pressing r' /\ rb_val r = rb_val r' /\
+  ribbon_value r = ribbon_value r' /\ rb_buf r = rb_buf r' /\
+  rb_received r = rb_received r' /\ rb_written r = rb_written r' /\
+  rb_cap r = rb_cap r' /\ rb_boundary r = rb_boundary r' /\ rb_err r = rb_err r' /\
+  rb_ignore r = rb_ignore r' /\ rb_discard r = rb_discard r'.
+Proof. exact edge_polls_transparent. Qed.
+Close Scope R_scope.
+
+(** hence the press rule over arbitrary histories *)
+Open Scope R_scope.
+Theorem C15_press_spec_hist : forall cap fs sp dr pu (h : list rop),
+  (0 < cap)%nat ->
+  let r0 := ribbon_new cap fs sp dr pu in
+  rb_pressing (rrun r0 h)
+  = (skip (rb_ignore r0) + Z.of_nat cap <=? run_len (in_range r0) (samples_of h))%Z.
+Proof. exact C15_press_spec_hist. Qed.
+Close Scope R_scope.
+
 Print Assumptions C15_press_spec.
 Print Assumptions C15_release_immediately.
 Print Assumptions C15_taps_do_not_add_up.
 Print Assumptions C15_just_pressed.
 Print Assumptions C15_just_released.
+Print Assumptions C15_edge_polls_transparent.
+Print Assumptions C15_press_spec_hist.
